@@ -183,21 +183,14 @@ Fixpoint enc (ind : N) (lvl : nat) (v : jvalue) : str :=
   | JArr [] => [91; 93]
   | JArr (x :: xs) =>
       91 :: nl ind (S lvl) ++ enc ind (S lvl) x
-         ++ (fix go (l : list jvalue) : str :=
-               match l with
-               | [] => []
-               | y :: ys => 44 :: nl ind (S lvl) ++ enc ind (S lvl) y ++ go ys
-               end) xs
+         ++ flat_map (fun y => 44 :: nl ind (S lvl) ++ enc ind (S lvl) y) xs
          ++ nl ind lvl ++ [93]
   | JObj [] => [123; 125]
   | JObj ((k, x) :: xs) =>
       123 :: nl ind (S lvl) ++ enc_string k ++ colon ind ++ enc ind (S lvl) x
-          ++ (fix go (l : list (str * jvalue)) : str :=
-                match l with
-                | [] => []
-                | (k', y) :: ys =>
-                    44 :: nl ind (S lvl) ++ enc_string k' ++ colon ind ++ enc ind (S lvl) y ++ go ys
-                end) xs
+          ++ flat_map (fun kv => match kv with
+                                 | (k', y) => 44 :: nl ind (S lvl) ++ enc_string k' ++ colon ind ++ enc ind (S lvl) y
+                                 end) xs
           ++ nl ind lvl ++ [125]
   end.
 
@@ -308,22 +301,21 @@ Definition scalar_rep (ff : str -> res str) (tag value : str) : res jvalue :=
     | _ => Err EUnmodelled              (* guessTagFromCustomType re-parses the text as YAML *)
     end.
 
+Fixpoint mapM {A B : Type} (f : A -> res B) (l : list A) : res (list B) :=
+  match l with
+  | [] => Ok []
+  | x :: xs => bind (f x) (fun v => bind (mapM f xs) (fun vs => Ok (v :: vs)))
+  end.
+
 (* MarshalJSON *)
 Fixpoint to_json (ff : str -> res str) (n : node) : res jvalue :=
   match n with
   | NScalar t v => scalar_rep ff t v
-  | NSeq l =>
-      bind ((fix go (l : list node) : res (list jvalue) :=
-               match l with
-               | [] => Ok []
-               | x :: xs => bind (to_json ff x) (fun v => bind (go xs) (fun vs => Ok (v :: vs)))
-               end) l) (fun vs => Ok (JArr vs))
+  | NSeq l => bind (mapM (to_json ff) l) (fun vs => Ok (JArr vs))
   | NMap m =>
-      bind ((fix go (l : list (str * node)) : res (list (str * jvalue)) :=
-               match l with
-               | [] => Ok []
-               | (k, x) :: xs => bind (to_json ff x) (fun v => bind (go xs) (fun vs => Ok ((k, v) :: vs)))
-               end) m) (fun vs => Ok (JObj vs))
+      bind (mapM (fun kx => match kx with
+                            | (k, x) => bind (to_json ff x) (fun v => Ok (k, v))
+                            end) m) (fun vs => Ok (JObj vs))
   | NAlias t => to_json ff t
   | NZero => Ok JNull
   end.
@@ -556,8 +548,61 @@ Fixpoint span_num (s : str) : str * str :=
   | [] => ([], [])
   end.
 
+(* the element / member loops, over the value parser of the level below *)
+Fixpoint elems_loop (pv : str -> option (jvalue * str)) (n : nat) (r1 : str) (acc : list jvalue)
+  : option (jvalue * str) :=
+  match n with
+  | O => None
+  | S n' =>
+      match pv r1 with
+      | None => None
+      | Some (v, r2) =>
+          match skip_ws r2 with
+          | [] => None
+          | c :: r3 =>
+              if c =? 44 then elems_loop pv n' r3 (v :: acc)
+              else if c =? 93 then Some (JArr (rev (v :: acc)), r3)
+              else None
+          end
+      end
+  end.
+
+Fixpoint members_loop (pv : str -> option (jvalue * str)) (n : nat) (r1 : str) (acc : list (str * jvalue))
+  : option (jvalue * str) :=
+  match n with
+  | O => None
+  | S n' =>
+      match skip_ws r1 with
+      | [] => None
+      | q :: rk =>
+          if q =? 34 then
+            match dec_body rk with
+            | None => None
+            | Some (k, r2) =>
+                match skip_ws r2 with
+                | [] => None
+                | c :: r3 =>
+                    if c =? 58 then
+                      match pv r3 with
+                      | None => None
+                      | Some (v, r4) =>
+                          match skip_ws r4 with
+                          | [] => None
+                          | d :: r5 =>
+                              if d =? 44 then members_loop pv n' r5 ((k, v) :: acc)
+                              else if d =? 125 then Some (JObj (rev ((k, v) :: acc)), r5)
+                              else None
+                          end
+                      end
+                    else None
+                end
+            end
+          else None
+      end
+  end.
+
 (* fuel: one unit per nesting level for parse_val, one per element for the
-   inner loops; the length of the text is always enough *)
+   loops; the length of the text is always enough *)
 Fixpoint parse_val (fuel : nat) (s : str) : option (jvalue * str) :=
   match fuel with
   | O => None
@@ -575,53 +620,13 @@ Fixpoint parse_val (fuel : nat) (s : str) : option (jvalue * str) :=
             match dec_body r with Some (t, r') => Some (JStr t, r') | None => None end
           else if c =? 91 then
             match skip_ws r with
-            | 93 :: r' => Some (JArr [], r')
-            | r0 =>
-                (fix elems (n : nat) (r1 : str) (acc : list jvalue) : option (jvalue * str) :=
-                   match n with
-                   | O => None
-                   | S n' =>
-                       match parse_val f r1 with
-                       | None => None
-                       | Some (v, r2) =>
-                           match skip_ws r2 with
-                           | 44 :: r3 => elems n' r3 (v :: acc)
-                           | 93 :: r3 => Some (JArr (rev (v :: acc)), r3)
-                           | _ => None
-                           end
-                       end
-                   end) f r0 []
+            | [] => None
+            | c' :: r' => if c' =? 93 then Some (JArr [], r') else elems_loop (parse_val f) f (c' :: r') []
             end
           else if c =? 123 then
             match skip_ws r with
-            | 125 :: r' => Some (JObj [], r')
-            | r0 =>
-                (fix members (n : nat) (r1 : str) (acc : list (str * jvalue)) : option (jvalue * str) :=
-                   match n with
-                   | O => None
-                   | S n' =>
-                       match skip_ws r1 with
-                       | 34 :: rk =>
-                           match dec_body rk with
-                           | None => None
-                           | Some (k, r2) =>
-                               match skip_ws r2 with
-                               | 58 :: r3 =>
-                                   match parse_val f r3 with
-                                   | None => None
-                                   | Some (v, r4) =>
-                                       match skip_ws r4 with
-                                       | 44 :: r5 => members n' r5 ((k, v) :: acc)
-                                       | 125 :: r5 => Some (JObj (rev ((k, v) :: acc)), r5)
-                                       | _ => None
-                                       end
-                                   end
-                               | _ => None
-                               end
-                           end
-                       | _ => None
-                       end
-                   end) f r0 []
+            | [] => None
+            | c' :: r' => if c' =? 125 then Some (JObj [], r') else members_loop (parse_val f) f (c' :: r') []
             end
           else if is_digit c || (c =? 45) then
             let '(tok, rest) := span_num (c :: r) in
